@@ -114,6 +114,16 @@ func (x *exec) writeFault(fr *frame, what string, isFinalFlush bool) bool {
 	return false
 }
 
+func fieldIndexOpt(t types.Type, name string) int {
+	st := t.Underlying().(*types.Struct)
+	for i := 0; i < st.NumFields(); i++ {
+		if st.Field(i).Name() == name {
+			return i
+		}
+	}
+	return -1
+}
+
 func fieldIndex(t types.Type, name string) int {
 	st := t.Underlying().(*types.Struct)
 	for i := 0; i < st.NumFields(); i++ {
@@ -138,6 +148,17 @@ func (x *exec) fillZipReader(i *interpreter, reader structure, rec *zipRec) {
 		*cell = zero(ft)
 		hdr := (*cell).(structure)[hi].(structure)
 		hdr[ni] = e.name
+		// the size fields code may look at: the uncompressed size is the length of the data
+		if ui := fieldIndexOpt(ht, "UncompressedSize64"); ui >= 0 && e.set {
+			switch d := e.data.(type) {
+			case []value:
+				hdr[ui] = uint64(len(d))
+			case *blob:
+				hdr[ui] = x.mkSym(types.Uint64, x.term(x.blobLen(d)))
+			case symBytes:
+				hdr[ui] = x.mkSym(types.Uint64, x.tb.StrLen(d.t))
+			}
+		}
 		x.world().fileOf[cell] = e
 		files = append(files, cell)
 	}
